@@ -22,18 +22,24 @@ VARIABLES rs, store, dur, hist
 vars == <<rs, store, dur, hist>>
 
 Others == Validators \ {Self}
-Near(v) == {x \in 0..MaxV : x + 1 >= v /\ x <= v + 2}       \* views around the replica's
+Near(v) == {x \in 0..MaxV : x + 1 >= v /\ x <= v + 1}       \* views around the replica's
 Votes(vs) == [view : vs, num : 0..1, pay : Pays]
 Hdrs == [num : 0..1, pay : Pays]
-TQs(vs) == [view : vs, hvh : {NoHdr} \cup Hdrs, hq : {NoVote} \cup Votes(vs)]
+(* one commit certificate per view inside timeout votes / certificates: two DIFFERENT certificates of one view cannot exist   *)
+(* while at most f validators are faulty (CertUnique), and the choice among them by TimeoutQC::high_qc is unspecified.       *)
+CanonQC(v) == [view |-> v, num |-> v % 2, pay |-> CHOOSE p \in Pays : TRUE]
+NestedQCs(vs) == {CanonQC(v) : v \in vs}
+TQs(vs) == [view : vs, hvh : {NoHdr} \cup Hdrs, hq : {NoVote} \cup NestedQCs(vs)]
 Justs(vs) == {CJ(q) : q \in Votes(vs)} \cup {TJ(t) : t \in TQs(vs)}
 Inval == {"none", "sig"}
 
 (* inv = "none": everything genuine; "sig": the message signature is forged; "weak": the carried certificate has less than a quorum *)
 Commits(vs) == [t : {"commit"}, from : Others \cup {0}, vote : Votes(vs), inv : Inval]
-Timeouts(vs) == [t : {"timeout"}, from : Others \cup {0}, view : vs, hv : {NoVote} \cup Votes(vs), hq : {NoVote} \cup Votes(vs), inv : Inval]
-NewViews(vs) == [t : {"newview"}, from : Others, j : Justs(vs), inv : Inval \cup {"weak"}]
-Proposals(vs) == [t : {"proposal"}, from : Others, j : Justs(vs), p : {"none", "bad"} \cup Pays, inv : Inval \cup {"weak"}]
+Timeouts(vs) == [t : {"timeout"}, from : Others \cup {0}, view : vs, hv : {NoVote} \cup Votes(vs), hq : {NoVote} \cup NestedQCs(vs), inv : Inval]
+(* senders of certificates: the leader of the relevant view and one other validator *)
+Senders(v) == {Leader(v), CHOOSE x \in Others : x # Leader(v)} \ {Self}
+NewViews(vs) == UNION {[t : {"newview"}, from : Senders(JView(j)), j : {j}, inv : Inval \cup {"weak"}] : j \in Justs(vs)}
+Proposals(vs) == UNION {[t : {"proposal"}, from : Senders(JView(j)), j : {j}, p : {"none", "bad"} \cup Pays, inv : Inval] : j \in Justs(vs)}
 
 WithValid(m) == [f \in (DOMAIN m) \cup {"valid"} |-> IF f = "valid" THEN m.inv = "none" ELSE m[f]]
 
@@ -52,17 +58,20 @@ Recv(m) ==
 (* inputs the replica acts upon, and a small representative set of rejected ones (so that random walks go deep) *)
 AllInputs == LET vs == Near(rs.view) IN Commits(vs) \cup Timeouts(vs) \cup NewViews(vs) \cup Proposals(vs)
 Accepted(m) == ~Blocked(rs, store, WithValid(m)) /\ Handle(Self, rs, store, WithValid(m)).ok
-RecvAccepted == \E m \in {x \in AllInputs : Accepted(x)} : Recv(m)
+(* one random accepted input per step (TLC's RandomElement): otherwise the hundreds of accepted inputs would crowd out *)
+(* the timer, crash and sync actions in random walks, which choose uniformly among successor states               *)
+RecvAccepted == LET acc == {x \in AllInputs : Accepted(x)} IN acc # {} /\ Recv(RandomElement(acc))
 RecvRejected ==
     LET vs == Near(rs.view)
         pick(S) == IF S = {} THEN {} ELSE {CHOOSE x \in S : TRUE}
         rej(S) == {x \in S : ~Accepted(x)}
-    IN \E m \in pick(rej({x \in Commits(vs) : x.inv = "sig"})) \cup pick(rej({x \in Commits(vs) : x.from = 0 /\ x.inv = "none"}))
+        cands ==  pick(rej({x \in Commits(vs) : x.inv = "sig"})) \cup pick(rej({x \in Commits(vs) : x.from = 0 /\ x.inv = "none"}))
             \cup pick(rej({x \in Commits(vs) : x.inv = "none" /\ x.from # 0}))
             \cup pick(rej({x \in Timeouts(vs) : x.inv = "none" /\ x.from # 0})) \cup pick(rej({x \in Timeouts(vs) : x.inv = "sig"}))
             \cup pick(rej({x \in NewViews(vs) : x.inv = "weak"})) \cup pick(rej({x \in NewViews(vs) : x.inv = "none"}))
             \cup pick(rej({x \in Proposals(vs) : x.inv = "none" /\ x.p = "bad"})) \cup pick(rej({x \in Proposals(vs) : x.inv = "none" /\ x.p # "bad"}))
-            \cup pick(rej({x \in Proposals(vs) : x.inv = "weak"})) : Recv(m)
+            \cup pick(rej({x \in Proposals(vs) : x.inv = "sig"}))
+    IN cands # {} /\ Recv(RandomElement(cands))
 
 Timer == Take(OnTimer(Self, rs, store), [a |-> "timer"])
 Crash == LET b == OnBoot(Self, Restart(dur), store)
